@@ -95,6 +95,68 @@ func (c *Ctx) ord1() {
 	failed := c.acc("ORD-1", sp, "failed-write-keeps-entry(reported-on-exchange)")
 	once := c.acc("ORD-1", sp, "acceptN-advances-exactly-once")
 
+	// the identifier a new message gets is the accept count — not the submit
+	// count, which lags behind while messages wait for a connection
+	idsrc := c.acc("ORD-1", sp, "identifier-taken-from-acceptN")
+	pmask := c.constInt("publishIDMask")
+	region := append(c.regionBlocks(sp), c.regionBlocks(ap)...)
+	for _, b := range region {
+		for _, ins := range b.Instrs {
+			bo, ok := ins.(*ssa.BinOp)
+			if !ok || bo.Op != token.AND || !isK(bo.Y, pmask) {
+				continue
+			}
+			// only the composition of a new identifier: seqNo & mask that is OR-ed into the packet's identifier
+			feeds := false
+			for _, r := range *bo.Referrers() {
+				if or, ok := r.(*ssa.BinOp); ok && or.Op == token.OR {
+					feeds = true
+				}
+			}
+			if !feeds {
+				continue
+			}
+			// follow a parameter to the argument of every call in the region
+			srcs := []ssa.Value{stripConv(bo.X)}
+			for d := 0; d < 4; d++ {
+				var next []ssa.Value
+				moved := false
+				for _, v := range srcs {
+					pr, isP := v.(*ssa.Parameter)
+					if !isP {
+						next = append(next, v)
+						continue
+					}
+					idx := -1
+					for k, q := range pr.Parent().Params {
+						if q == pr {
+							idx = k
+						}
+					}
+					for _, rb := range region {
+						for _, ri := range rb.Instrs {
+							if call, ok := ri.(*ssa.Call); ok && call.Call.StaticCallee() == pr.Parent() && idx < len(call.Call.Args) {
+								next = append(next, stripConv(call.Call.Args[idx]))
+								moved = true
+							}
+						}
+					}
+				}
+				srcs = next
+				if !moved {
+					break
+				}
+			}
+			for _, v := range srcs {
+				if roleKey(v) == "seq.acceptN" {
+					idsrc.pass()
+				} else {
+					idsrc.failAt(c.P.Pos(bo.Pos()), "the packet identifier of a new message is composed from %s, want the accept count: with messages waiting for a connection two accepted messages get the same identifier and one overwrites the other's record", Expr(v))
+				}
+			}
+		}
+	}
+	idsrc.done(1, "seq.acceptN & publishIDMask is what goes into the identifier")
 	for _, p := range paths {
 		if p.Start != sp.Blocks[0] {
 			continue
@@ -143,6 +205,11 @@ func (c *Ctx) ord1() {
 						once.fail(p, i, "acceptN is assigned something other than acceptN+1: %s", Expr(e.Val))
 					}
 				case "seq.submitN":
+					// a store of the value the field already holds changes nothing
+					// (a step that returns "the new submitN" returns the old one when nothing was sent)
+					if u, ok := stripConv(e.Val).(*ssa.UnOp); ok && u.Op == token.MUL && pathx.RoleOfAddr(u.X).Key() == "seq.submitN" {
+						continue
+					}
 					iSub = i
 				}
 			}
